@@ -26,6 +26,8 @@ type vfCOp struct {
 	Op string    `json:"op"` // add | add_auto | remove | search | flush | write | rotate_noop
 	N  int       `json:"n"`  // ordinal of the goroutine's own document
 	Q  []float32 `json:"q,omitempty"`
+	// search: a text search carrying several queries (bm25 / hybrid / store targets)
+	Multi bool `json:"multi,omitempty"`
 }
 
 type vfC11Case struct {
@@ -80,7 +82,7 @@ func vfC11Gen(rt *rapid.T) vfC11Case {
 			case w < 58 && len(removed) > 0:
 				return vfCOp{Op: "remove", N: removed[rapid.IntRange(0, len(removed)-1).Draw(rt, "rm_again")]}
 			case w < 80:
-				return vfCOp{Op: "search", Q: g.drawNonZero(rt, "q")}
+				return vfCOp{Op: "search", Q: g.drawNonZero(rt, "q"), Multi: rapid.IntRange(0, 2).Draw(rt, "multi_query") == 0}
 			case w < 90:
 				return vfCOp{Op: "flush"}
 			default:
@@ -113,6 +115,8 @@ type vfConcTarget struct {
 	addAuto func(vec []float32) (uint32, error)
 	remove  func(id uint32) error
 	search  func(q []float32) ([]uint32, error)
+	// searchMulti: a text search with several queries, every document matches one of them
+	searchMulti func() ([]uint32, error)
 	flush   func() error
 	write   func() error
 	exact   bool // a k=all search must contain every document that is visible
@@ -162,6 +166,14 @@ func vfBuildConcTarget(c *vfC11Case, dir string) (*vfConcTarget, error) {
 			}
 			return ids, err
 		}
+		t.searchMulti = func() ([]uint32, error) {
+			res, err := ix.NewSearch().WithQuery("common", "auto", "tok1073741825").WithK(0).Execute()
+			ids := make([]uint32, len(res))
+			for i, r := range res {
+				ids[i] = r.GetId()
+			}
+			return ids, err
+		}
 		t.flush = ix.Flush
 		t.write = func() error { _, err := ix.WriteTo(io.Discard); return err }
 	case "metadata":
@@ -197,6 +209,14 @@ func vfBuildConcTarget(c *vfC11Case, dir string) (*vfConcTarget, error) {
 			}
 			return ids, err
 		}
+		t.searchMulti = func() ([]uint32, error) {
+			res, err := h.NewSearch().WithText("common", "auto", "tok1073741825").WithK(vfBigK).Execute()
+			ids := make([]uint32, len(res))
+			for i, r := range res {
+				ids[i] = r.ID
+			}
+			return ids, err
+		}
 		t.flush = h.Flush
 		t.write = func() error { return h.WriteTo(io.Discard, io.Discard, io.Discard, io.Discard) }
 	case "store":
@@ -215,6 +235,14 @@ func vfBuildConcTarget(c *vfC11Case, dir string) (*vfConcTarget, error) {
 		t.remove = st.Remove
 		t.search = func(q []float32) ([]uint32, error) {
 			res, err := st.NewSearch().WithVector(vfCloneF32(q)).WithK(vfBigK).Execute()
+			ids := make([]uint32, len(res))
+			for i, r := range res {
+				ids[i] = r.ID
+			}
+			return ids, err
+		}
+		t.searchMulti = func() ([]uint32, error) {
+			res, err := st.NewSearch().WithText("common", "auto", "tok1073741825").WithK(vfBigK).Execute()
 			ids := make([]uint32, len(res))
 			for i, r := range res {
 				ids[i] = r.ID
@@ -249,7 +277,34 @@ func vfRaceLog() (int64, string) {
 	return total, text.String()
 }
 
+// vfC11Run runs the case under a watchdog: "no deadlock" is part of the property, and a hang
+// anywhere in the case (workload, directed schedule, quiescent searches, Close) must become a
+// violation rather than a test timeout.
 func vfC11Run(c vfC11Case, ctx *vfCtx) *vfViolation {
+	res := make(chan *vfViolation, 1)
+	go func() {
+		defer func() {
+			if r := recover(); r != nil {
+				res <- vfFail("%s: panic outside the worker goroutines: %v", c.Target, r)
+			}
+		}()
+		res <- vfC11RunCase(c, ctx)
+	}()
+	select {
+	case v := <-res:
+		return v
+	case <-time.After(vfC11Deadline):
+		buf := make([]byte, 1<<15)
+		buf = buf[:runtime.Stack(buf, true)]
+		return vfFail("the case (%d goroutines on one %s) did not finish within %v: deadlock?\n%s", len(c.Progs), c.Target, vfC11Deadline, buf)
+	}
+}
+
+// The generated workloads finish in well under a second; the deadline only has to be far above
+// what a loaded machine can add.
+const vfC11Deadline = 90 * time.Second
+
+func vfC11RunCase(c vfC11Case, ctx *vfCtx) *vfViolation {
 	dir, err := os.MkdirTemp(vfEnv("VERIF_SCRATCH"), "c11-")
 	if err != nil {
 		return vfFail("mkdir: %v", err)
@@ -332,7 +387,11 @@ func vfC11Run(c vfC11Case, ctx *vfCtx) *vfViolation {
 					s.id = idOf(g, op.N)
 					s.err = t.remove(s.id)
 				case "search":
-					s.ids, s.err = t.search(op.Q)
+					if op.Multi && t.searchMulti != nil {
+						s.ids, s.err = t.searchMulti()
+					} else {
+						s.ids, s.err = t.search(op.Q)
+					}
 				case "flush":
 					s.err = t.flush()
 				case "write":
@@ -375,10 +434,10 @@ func vfC11Run(c vfC11Case, ctx *vfCtx) *vfViolation {
 	}
 	select {
 	case <-done:
-	case <-time.After(120 * time.Second):
+	case <-time.After(60 * time.Second):
 		buf := make([]byte, 1<<16)
 		buf = buf[:runtime.Stack(buf, true)]
-		return vfFail("the workload (%d goroutines on one %s) did not finish within 120 s: deadlock?\n%s", G, c.Target, buf)
+		return vfFail("the workload (%d goroutines on one %s) did not finish within 60 s: deadlock?\n%s", G, c.Target, buf)
 	}
 	select {
 	case p := <-panics:
@@ -533,6 +592,7 @@ func vfC11AutoIDs(c *vfC11Case, ctx *vfCtx, raceBefore int64) *vfViolation {
 	instances := []HybridSearchIndex{mk(), mk(), mk()}
 	var seen sync.Map
 	var dup atomic.Uint32
+	var refusedOK atomic.Bool
 	var wg sync.WaitGroup
 	start := make(chan struct{})
 	record := func(id uint32) {
@@ -545,12 +605,24 @@ func vfC11AutoIDs(c *vfC11Case, ctx *vfCtx, raceBefore int64) *vfViolation {
 		go func(g int) {
 			defer wg.Done()
 			<-start
-			for j := 0; j < 40+len(c.Progs[g]); j++ {
-				switch (g + j) % 4 {
+			for j := 0; j < 600+len(c.Progs[g]); j++ {
+				switch (g + j) % 6 {
 				case 0:
 					record(NewVectorNode(nil).ID())
 				case 1:
 					record(NewMetadataNode(nil).ID())
+				case 2, 3:
+					// an add that must be refused (wrong dimension / unsupported metadata value):
+					// whatever id it drew is not handed out, and must not disturb anyone else's
+					var err error
+					if j%2 == 0 {
+						_, err = instances[(g+j)%len(instances)].Add(make([]float32, c.Dim+1), "auto common", map[string]interface{}{"n": j})
+					} else {
+						_, err = instances[(g+j)%len(instances)].Add(vfCloneF32(c.Vecs[j%len(c.Vecs)]), "auto common", map[string]interface{}{"bad": struct{}{}})
+					}
+					if err == nil {
+						refusedOK.Store(true)
+					}
 				default:
 					id, err := instances[(g+j)%len(instances)].Add(vfCloneF32(c.Vecs[j%len(c.Vecs)]), "auto common", map[string]interface{}{"n": j})
 					if err == nil {
@@ -562,6 +634,9 @@ func vfC11AutoIDs(c *vfC11Case, ctx *vfCtx, raceBefore int64) *vfViolation {
 	}
 	close(start)
 	wg.Wait()
+	if refusedOK.Load() {
+		return vfFail("an Add with a vector of the wrong dimension / an unsupported metadata value was accepted")
+	}
 	if id := dup.Load(); id != 0 {
 		return vfFail("automatically generated id %d was handed out twice (%d goroutines, three hybrid instances plus NewVectorNode / NewMetadataNode)", id, G)
 	}
